@@ -17,6 +17,7 @@ import (
 )
 
 type planned struct {
+	twin   *refchain.Block // CVE-2012-2459 mutation of b (same header hash, trailing subtree repeated): offered right before b
 	b      *refchain.Block
 	node   *refchain.Node
 	parent *planned // nil = base tip
@@ -35,8 +36,18 @@ func Configs() []Config {
 	return []Config{{Name: "plain"}, {Name: "compressed-fastsave", Compress: true, FastSave: true}, {Name: "testnet-fastsave", Testnet: true, FastSave: true}}
 }
 
+// Focus selects the mix of block kinds: "" = C06 mix, "C05" = mostly header/structure/commitment violators and mutated twins.
+var Focus string
+
 func Child(seed int64, tier, cfgName, stateFile string, trees int) {
-	run := vlib.StartChild("C06", seed, tier)
+	ChildFor("C06", seed, tier, cfgName, stateFile, trees)
+}
+
+func ChildFor(prop string, seed int64, tier, cfgName, stateFile string, trees int) {
+	if prop == "C05" || prop == "C04" {
+		Focus = prop
+	}
+	run := vlib.StartChild(prop, seed, tier)
 	defer run.ExportState(stateFile)
 	var cfg Config
 	for _, c := range Configs() {
@@ -47,7 +58,7 @@ func Child(seed int64, tier, cfgName, stateFile string, trees int) {
 	if cfg.FastSave {
 		utxo.UTXO_WRITING_TIME_TARGET = 0
 	}
-	r := vlib.NewRand(uint64(seed)).Fork("C06/" + cfgName)
+	r := vlib.NewRand(uint64(seed)).Fork(prop + "/trees/" + cfgName)
 	dir, _ := os.MkdirTemp("", "forks")
 	defer os.RemoveAll(dir)
 	p := chainsim.DefaultParams(uint64(seed), cfg.Testnet)
@@ -96,6 +107,9 @@ func lastN(l []string, n int) []string {
 
 // oneTree plans a random tree on top of the current tip (or a few blocks below it) and delivers it.
 func OneTree(s *chainsim.Sim, run *vlib.Run, r *vlib.Rand, tno int) bool {
+	if r.Intn(4) == 0 {
+		return tiePrefixPattern(s, run, r)
+	}
 	g := s.G
 	root := s.Ref.Tip
 	// sometimes fork from below the tip (reorganisation of already connected blocks)
@@ -118,7 +132,32 @@ func OneTree(s *chainsim.Sim, run *vlib.Run, r *vlib.Rand, tno int) bool {
 			parNode = par.node
 		}
 		kind := "valid"
+		if Focus == "C05" {
+			switch x := r.Intn(100); {
+			case x < 12:
+				kind = "check-invalid/merkle"
+			case x < 20:
+				kind = "check-invalid/pow"
+			case x < 26:
+				kind = "check-invalid/time-too-old"
+			case x < 32:
+				kind = "check-invalid/bad-cb-height"
+			case x < 36:
+				kind = "connect-invalid/overclaim"
+			}
+		}
+		if Focus == "C04" {
+			switch x := r.Intn(100); {
+			case x < 12:
+				kind = "connect-invalid/script"
+			case x < 22:
+				kind = "connect-invalid/overclaim"
+			case x < 34:
+				kind = "connect-invalid/double-spend"
+			}
+		}
 		switch x := r.Intn(100); {
+		case Focus == "C05" || Focus == "C04":
 		case x < 8:
 			kind = "connect-invalid/script"
 		case x < 12:
@@ -136,6 +175,12 @@ func OneTree(s *chainsim.Sim, run *vlib.Run, r *vlib.Rand, tno int) bool {
 			b = g.RandomBlock(parNode, 4)
 		}
 		pl := &planned{b: b, node: g.PlanNode(b, parNode), parent: par, kind: kind}
+		if kind == "valid" && (r.Intn(5) == 0 || (Focus == "C05" && r.Intn(2) == 0)) {
+			if m, tw := mutatedTwin(g, r, parNode); m != nil {
+				pl = &planned{b: m, twin: tw, node: g.PlanNode(m, parNode), parent: par, kind: "valid-after-mutated-twin"}
+				b = m
+			}
+		}
 		plan = append(plan, pl)
 		if par == nil {
 			shape += "R"
@@ -169,6 +214,13 @@ func OneTree(s *chainsim.Sim, run *vlib.Run, r *vlib.Rand, tno int) bool {
 		pl := ready[r.Intn(len(ready))]
 		pl.done = true
 		remaining--
+		if pl.twin != nil {
+			// same header hash as pl.b, body with a repeated trailing subtree: must be refused and must not
+			// prevent the honest block from being accepted afterwards
+			if _, _, ok := s.Offer(pl.twin, "tree/mutated-twin(dup-subtree)"); !ok {
+				return false
+			}
+		}
 		rr, _, ok := s.Offer(pl.b, "tree/"+pl.kind)
 		if !ok {
 			return false
@@ -192,6 +244,74 @@ func OneTree(s *chainsim.Sim, run *vlib.Run, r *vlib.Rand, tno int) bool {
 	return true
 }
 
+// tiePrefixPattern: two branches from one fork point; the branch that was seen first gets
+// overtaken, later ties the tip again and then continues with a block that is invalid only at
+// connect time. After the failed reorganisation the node must be back on the tip it came from
+// (first seen wins the tie), not on the equal-work valid prefix of the failed branch.
+func tiePrefixPattern(s *chainsim.Sim, run *vlib.Run, r *vlib.Rand) bool {
+	g := s.G
+	fork := s.Ref.Tip
+	k := 1 + r.Intn(3)
+	build := func(par *refchain.Node, n int, kind string) ([]*refchain.Block, *refchain.Node) {
+		var l []*refchain.Block
+		for i := 0; i < n; i++ {
+			var b *refchain.Block
+			if kind != "valid" && i == n-1 {
+				b = buildKind(g, r, par, kind)
+			}
+			if b == nil {
+				b = g.RandomBlock(par, 3)
+			}
+			l = append(l, b)
+			par = g.PlanNode(b, par)
+		}
+		return l, par
+	}
+	kinds := []string{"connect-invalid/overclaim", "connect-invalid/double-spend", "connect-invalid/script"}
+	bBlocks, _ := build(fork, k+1, kinds[r.Intn(len(kinds))]) // B1..Bk valid, B(k+1) invalid
+	aBlocks, _ := build(fork, k, "valid")                     // A1..Ak
+	seq := []struct {
+		b   *refchain.Block
+		fam string
+	}{}
+	bFirst := r.Intn(4) != 0
+	if bFirst {
+		seq = append(seq, struct {
+			b   *refchain.Block
+			fam string
+		}{bBlocks[0], "pattern/B1-first"})
+	}
+	for _, b := range aBlocks {
+		seq = append(seq, struct {
+			b   *refchain.Block
+			fam string
+		}{b, "pattern/A-branch"})
+	}
+	start := 1
+	if !bFirst {
+		start = 0
+	}
+	for i := start; i < k; i++ {
+		seq = append(seq, struct {
+			b   *refchain.Block
+			fam string
+		}{bBlocks[i], "pattern/B-ties"})
+	}
+	seq = append(seq, struct {
+		b   *refchain.Block
+		fam string
+	}{bBlocks[k], "pattern/B-invalid-after-tie"})
+	for _, e := range seq {
+		if _, _, ok := s.Offer(e.b, e.fam); !ok {
+			return false
+		}
+	}
+	run.Inc("pattern_trees/failed-reorg-with-tied-prefix")
+	run.Distinct("tree_shapes", "pattern-tie-prefix", k, bFirst)
+	run.Inc("trees")
+	return true
+}
+
 func indexOf(l []*planned, p *planned) int {
 	for i := range l {
 		if l[i] == p {
@@ -208,6 +328,43 @@ func min(a, b int) int {
 	return b
 }
 
+// mutatedTwin builds a valid block with 6 or 12 transactions and its CVE-2012-2459 mutation: the
+// last 2 (4) transactions repeated, which yields the same Merkle root (and block hash) while no two
+// sibling *leaves* are equal - the duplication is only visible one (two) levels above the leaves.
+func mutatedTwin(g *chainsim.Gen, r *vlib.Rand, par *refchain.Node) (*refchain.Block, *refchain.Block) {
+	height := par.Height + 1
+	segwit := g.P.Segwit != 0 && height >= g.P.Segwit
+	view := g.View(par)
+	if view == nil {
+		return nil, nil
+	}
+	var rich []refchain.OutPoint
+	for _, op := range g.Spendable(view, height, segwit) {
+		if k, _ := g.KindOf(view[op].Script); view[op].Value > 100000 && k != chainsim.KP2WPKH && k != chainsim.KP2WSHTrue {
+			rich = append(rich, op)
+		}
+	}
+	n, d := 5, 2
+	if len(rich) >= 11 && r.Bool() {
+		n, d = 11, 4
+	}
+	if len(rich) < n {
+		return nil, nil
+	}
+	var txs []*refchain.Tx
+	for i := 0; i < n; i++ {
+		c := view[rich[i]]
+		txs = append(txs, g.Spend([]refchain.OutPoint{rich[i]}, []refchain.Coin{c}, []refchain.TxOut{g.OutTrue(c.Value - 10)}, 1, 0, nil, -1))
+	}
+	m := g.Build(chainsim.BlockSpec{Parent: par, Txs: txs, Fees: uint64(10 * n), NoCommitment: true})
+	tw := *m
+	tw.DupTail = d
+	if root, mut := tw.ComputeMerkle(); root != m.Merkle || !mut || tw.Hash() != m.Hash() {
+		return nil, nil // construction did not align (should not happen)
+	}
+	return m, &tw
+}
+
 func buildKind(g *chainsim.Gen, r *vlib.Rand, par *refchain.Node, kind string) *refchain.Block {
 	height := par.Height + 1
 	segwit := g.P.Segwit != 0 && height >= g.P.Segwit
@@ -220,6 +377,13 @@ func buildKind(g *chainsim.Gen, r *vlib.Rand, par *refchain.Node, kind string) *
 		return g.Build(chainsim.BlockSpec{Parent: par, FailPoW: true})
 	case "connect-invalid/overclaim":
 		return g.Build(chainsim.BlockSpec{Parent: par, CoinbaseDelta: 1})
+	case "check-invalid/time-too-old":
+		return g.Build(chainsim.BlockSpec{Parent: par, Time: par.MTP()})
+	case "check-invalid/bad-cb-height":
+		if height < g.P.BIP34 {
+			return nil
+		}
+		return g.Build(chainsim.BlockSpec{Parent: par, CoinbaseScript: append(refchain.BIP34Prefix(height+1), 1, 2, 3, 4)})
 	}
 	view := g.View(par)
 	if view == nil {
